@@ -25,7 +25,9 @@ BLOCKING_RE = re.compile(
     r"|^std::process::Command::(output|status|spawn)$|^std::process::Child::(wait|wait_with_output)$"
     r"|^std::thread::sleep$|^std::thread::park|^std::sync::mpsc::Receiver::<T>::(recv|recv_timeout|iter)$"
     r"|^std::thread::JoinHandle::<T>::join$|^std::net::TcpListener::accept$|^std::net::TcpStream::connect"
-    r"|^std::sync::(Condvar|Barrier)::")
+    r"|^std::sync::(Condvar|Barrier)::"
+    # reading a path the program chose can block for ever (FIFO without a writer, /dev/stdin, /dev/zero)
+    r"|^std::fs::(read|read_to_string)$|^std::fs::File::open$|^std::fs::OpenOptions::open$")
 
 
 def payload_local(f, op, field):
@@ -245,6 +247,11 @@ def run(ctx, res):
         if x["status"] in ("guarded", "chain-guarded"):
             res.ok("BLOCKING", x["key"], x["status"])
         elif x["key"] in allow:
+            if x["key"] == "eval::read_src # - # std::fs::read" and not S.snippet_import_guard(P)[0]:
+                res.bad("BLOCKING", x["key"] + " # allow-shape", "the allowlisted file read relies on check_snippet refusing file imports in "
+                        "sandbox mode, which no longer has its shape: %s" % S.snippet_import_guard(P)[1],
+                        "%s:%d" % (x["term"]["span"]["file"], x["term"]["span"]["line"]))
+                continue
             res.ok("BLOCKING", x["key"], "allowlisted: " + allow[x["key"]][:60])
         else:
             res.bad("BLOCKING", x["key"],
